@@ -352,3 +352,7 @@ func ModelNewTicker(d time.Duration) *time.Ticker {
 
 func ModelAfter(d time.Duration) <-chan time.Time { return ModelNewTimer(d).C }
 func ModelTick(d time.Duration) <-chan time.Time  { return ModelNewTicker(d).C }
+
+// RealPools makes the engine execute sourcegraph/conc worker pools from their source on the scheduler
+// (by default a pool task runs to completion where it is submitted).
+func RealPools() {}
